@@ -1049,11 +1049,21 @@ impl<B: Buf> quic::SendStream<B> for SimSend<B> {
 
     fn poll_finish(&mut self, cx: &mut Context<'_>) -> Poll<Result<(), StreamErrorIncoming>> {
         spin_tick("poll_finish", self.side, Some(self.id));
-        std::task::ready!(self.flush(cx))?;
+        // As with h3-quinn (`poll_finish` = `quinn::SendStream::finish()`, whatever is still held
+        // in the adapter's write buffer is dropped): finishing with a write in flight truncates
+        // the stream. The caller has to see `poll_ready` through first; doing otherwise is logged.
+        let unwritten = self.writing.as_ref().map(|w| w.remaining()).unwrap_or(0);
+        if unwritten > 0 {
+            self.writing = None;
+        }
+        let _ = cx;
         let mut n = lock(&self.net);
         n.time += 1;
         let t = n.time;
         let p = n.streams.get_mut(&self.id).unwrap().pipe_mut(self.side);
+        if unwritten > 0 {
+            p.misuse.push(format!("poll_finish with a write in flight: {} accepted byte(s) never reach the peer", unwritten));
+        }
         if p.reset_sent.is_none() && !p.fin_sent {
             p.fin_sent = true;
             p.fin_time = t;
